@@ -80,9 +80,10 @@ bool run(const std::vector<std::string>& t, bool g, std::string& out)
         if (!r.has_value()) { out = "ok " + std::to_string(rc_of(r)) + " 0 0 0"; return true; }
         bitspan s = r.value();
         const std::size_t noff = s.offset();
-        const std::size_t first = static_cast<std::size_t>(s.aligned_ptr() - (noff / 8U) - d.p);
         const std::size_t nbytes = (s.size() + noff) / 8U;
-        out = "ok 0 " + std::to_string(first) + " " + std::to_string(nbytes) + " " + std::to_string(noff); return true;
+        // the first byte of the window is observable (without tripping the header's own asserts) only if it is not empty
+        const std::string first = (nbytes == 0U) ? "-" : std::to_string(static_cast<std::size_t>(s.aligned_ptr() - (noff / 8U) - d.p));
+        out = "ok 0 " + first + " " + std::to_string(nbytes) + " " + std::to_string(noff); return true;
     }
     if (op == "x.setbit" && nt == 4) {
         Buf d(t[1], g);
